@@ -447,7 +447,13 @@ func cachingHandler(router proxy.Router, logger *apexlog.Logger, conf *config.Co
 							}
 						}
 					}
-					if shouldSkip {
+					// The storage keeps only 200, 400-404 and redirects. Any other status has no cache file to
+					// be written to and served from: relay it to the client directly.
+					storable := reqres.Response.StatusCode == 200 || caching.IsCacheableError(reqres.Response.StatusCode) || util.IsRedirect(reqres.Response.StatusCode)
+					if !storable {
+						cr.Writer.SetDiskWritesDisabled()
+					}
+					if shouldSkip || !storable {
 						if clientWritesDisabled {
 							return
 						}
